@@ -681,6 +681,64 @@ func init() {
 				},
 			},
 			{
+				// values whose rings / lines are windows into one flat buffer with spare capacity behind each of them:
+				// a read-only function must not write beyond len() either (append into the caller's spare capacity)
+				Name: "read-only-with-shared-buffers", Count: h.Fixed(200, 20000),
+				Run: func(c *h.Ctx, idx uint64, r *h.Rand) {
+					setup()
+					flat := make([]orb.Point, 40)
+					fill := func() {
+						// four unclosed squares of 4 vertices and lines in between, all inside one buffer
+						k := 0
+						for q := 0; q < 4; q++ {
+							x, y, sz := float64(2+q*6), float64(r.Range(1, 5)), float64(r.Range(1, 4))
+							for _, p := range []orb.Point{{x, y}, {x + sz, y}, {x + sz, y + sz}, {x, y + sz}} {
+								flat[k] = p
+								k++
+							}
+						}
+						for ; k < len(flat); k++ {
+							flat[k] = orb.Point{float64(r.Range(0, 30)), float64(r.Range(0, 10))}
+						}
+					}
+					fill()
+					mk := func() orb.Geometry {
+						switch r.Intn(6) {
+						case 0:
+							return orb.Polygon{orb.Ring(flat[0:4]), orb.Ring(flat[4:8])}
+						case 1:
+							return orb.MultiPolygon{{orb.Ring(flat[0:4])}, {orb.Ring(flat[4:8]), orb.Ring(flat[8:12])}}
+						case 2:
+							return orb.Ring(flat[4:8])
+						case 3:
+							return orb.MultiLineString{orb.LineString(flat[16:19]), orb.LineString(flat[19:24])}
+						case 4:
+							return orb.Collection{orb.Polygon{orb.Ring(flat[0:4])}, orb.LineString(flat[16:20]), orb.MultiPoint(flat[20:23])}
+						default:
+							return orb.Collection{orb.Collection{orb.MultiPolygon{{orb.Ring(flat[8:12])}, {orb.Ring(flat[12:16])}}}, orb.Ring(flat[0:4])}
+						}
+					}
+					g := mk()
+					snap := append([]orb.Point{}, flat...)
+					for i := range registry {
+						e := &registry[i]
+						if !e.readOnly {
+							continue
+						}
+						if pv, st := h.Catch(func() { e.call(g) }); pv != nil {
+							c.Fail("", "a generic entry point panicked", map[string]interface{}{"function": e.name, "value": fmt.Sprintf("%#v", g), "panic": sv(pv), "stack": st})
+						}
+						c.Eval()
+						if !bitsEqualPts(flat, snap) {
+							c.Fail("", "a read-only function wrote into the caller's memory (beyond or inside the argument's slices)", map[string]interface{}{"function": e.name, "value": fmt.Sprintf("%#v", g), "buffer_before": sv(snap), "buffer_after": sv(flat)})
+							copy(flat, snap)
+						}
+					}
+					c.Nontrivial(h.Mix(0x5b, idx))
+					c.Sample(map[string]interface{}{"value": fmt.Sprintf("%#v", g), "note": "rings and lines are windows into one 40-point buffer"})
+				},
+			},
+			{
 				Name: "registry-completeness", Count: h.Fixed(1, 1), Serial: true,
 				Run: func(c *h.Ctx, idx uint64, r *h.Rand) {
 					setup()
